@@ -2,6 +2,7 @@
 //! Verdicts that need a reference semantics are decided by the Python side.
 
 mod canon;
+mod heapgraph;
 mod natives;
 mod run;
 
@@ -91,6 +92,7 @@ fn main() {
         let mode2 = mode.clone();
         let events = guarded(stack_mb, move || match mode2.as_str() {
             "run" => run::run_case(&case),
+            "heapgraph" => heapgraph::run_case(&case),
             _ => vec![json!(["bad_mode", mode2])],
         });
         writeln!(out, "{}", json!({"id": id, "ev": events})).unwrap();
